@@ -76,6 +76,7 @@ class Rec:
         self.hf = None
         self.fs = 2
         self.cfg = cfg
+        self.erand = _random.Random(rnd.getrandbits(32))     # which entry point realises an action (add / add_alt, check / check_alt / in)
         self.make()
 
     # -- construction ----------------------------------------------------------------------------
@@ -211,12 +212,52 @@ class Rec:
             a["uniq"] = obj.unique_elements
         return a
 
+    # one model action, several entry points of the code: add(key) / add_alt(hashes(key)), check / check_alt / `in`
+    def hashes_of(self, key):
+        obj, kind = self.obj, self.kind
+        if kind in ("ebf", "rbf"):
+            if getattr(self, "_hprobe", None) is None:
+                self._hprobe = self.P.BloomFilter(est_elements=obj.estimated_elements, false_positive_rate=obj.false_positive_rate, hash_function=obj.hash_function)
+            return self._hprobe.hashes(key)
+        return obj.hashes(key)
+
+    def do_add(self, key, *a):
+        obj, kind = self.obj, self.kind
+        if kind in ("cko", "ccko", "bits") or self.erand.random() >= 0.3:
+            return obj.add(key, *a)
+        if kind == "qf":
+            return obj.add_alt(obj._hash_func(key, 0))
+        if kind in ("hh", "st"):
+            return obj.add_alt(key, self.hashes_of(key), *a)
+        return obj.add_alt(self.hashes_of(key), *a)
+
+    def do_rem(self, key, *a):
+        obj, kind = self.obj, self.kind
+        if kind in ("cko", "ccko", "bits", "hh") or self.erand.random() >= 0.3:
+            return obj.remove(key, *a)
+        if kind == "qf":
+            return obj.remove_alt(obj._hash_func(key, 0))
+        if kind == "st":
+            return obj.remove_alt(key, self.hashes_of(key), *a)
+        return obj.remove_alt(self.hashes_of(key), *a)
+
+    def do_check(self, key):
+        obj, kind = self.obj, self.kind
+        r = self.erand.random()
+        if kind in ("cko", "bloom", "disk", "ebf", "rbf", "qf") and r < 0.15:
+            return key in obj
+        if kind in ("cko", "ccko", "bits", "hh", "st") or r >= 0.4:
+            return obj.check(key)
+        if kind == "qf":
+            return obj.check_alt(obj._hash_func(key, 0))
+        return obj.check_alt(self.hashes_of(key))
+
     def probes(self, idxs):
         if self.kind in ("hh", "st"):
             return []
         if self.kind == "bits":
             return [[j, int(self.obj.check_bit(j))] for j in idxs]
-        return [[j + 1, int(self.obj.check(self.keys[j]))] for j in idxs]
+        return [[j + 1, int(self.do_check(self.keys[j]))] for j in idxs]
 
     def emit(self, op, ks, a=0, ret=0, probe_idx=(), full=False, lost=0):
         ev = {"op": op, "ks": [[k + 1, amt] for k, amt in ks], "a": a, "ret": int(ret or 0), "n": getattr(self.obj, "elements_added", 0),
@@ -332,7 +373,7 @@ class Rec:
         if kind in ("cbloom", "cms") and nev > 20 and rnd.random() < 0.7:   # a hot key whose counters creep across a storage-width mark (2^8, 2^15, 2^16) a few units at a time
             hot = rnd.randrange(nkeys)
             a0 = rnd.choice([256, 32768, 32768, 32768, 65536]) - rnd.randint(20, 45)
-            ret = self.obj.add(keys[hot], a0)
+            ret = self.do_add(keys[hot], a0)
             out[hot] = a0
             self.emit("add", [(hot, a0)], ret=ret, probe_idx=[hot])
         for step in range(nev):
@@ -355,7 +396,7 @@ class Rec:
                     elif r < 0.10:
                         self.union(pi)
                     else:
-                        self.obj.add(key)
+                        self.do_add(key)
                         out[i] = out.get(i, 0) + 1
                         self.emit("add", [(i, 1)], probe_idx=pi, full=full)
                 elif kind in ("cbloom", "cms"):
@@ -363,14 +404,14 @@ class Rec:
                     a = rnd.choice([1, 1, 2, 3, 7]) if (rnd.random() < 0.9 or hot is not None) else rnd.choice([200, 32760, 33000, 65500, 66000])
                     if r < 0.3 and out.get(i, 0) > 0:
                         a = rnd.randint(1, out[i])
-                        ret = self.obj.remove(key, a)
+                        ret = self.do_rem(key, a)
                         out[i] -= a
                         self.emit("rem", [(i, a)], ret=ret, probe_idx=pi, full=full)
                     elif 0.3 <= r < (0.33 if hot is None else 0.305):
                         self.reload()
                         self.emit("rt", [], probe_idx=pi, full=full)
                     else:
-                        ret = self.obj.add(key, a)
+                        ret = self.do_add(key, a)
                         out[i] = out.get(i, 0) + a
                         self.emit("add", [(i, a)], ret=ret, probe_idx=pi, full=full)
                 elif kind in ("ebf", "rbf"):
@@ -385,13 +426,13 @@ class Rec:
                         self.emit("rt", [], probe_idx=pi, full=full)
                     else:
                         force = 1 if rnd.random() < 0.1 else 0
-                        self.obj.add(key, bool(force))
+                        self.do_add(key, bool(force))
                         self.emit("add", [(i, force)], probe_idx=pi, full=full)
                 elif kind in ("cko", "ccko"):
                     self.cuckoo_step(i, r, pi)
                 else:
                     if r < 0.25:
-                        self.obj.remove(key)
+                        self.do_rem(key)
                         self.emit("rem", [(i, 1)], probe_idx=pi, full=full)
                     elif r < 0.28:
                         nq = rnd.randint(3, 10)
@@ -403,10 +444,10 @@ class Rec:
                         self.obj.max_load_factor = lf
                         self.emit("lf", [], a=int(round(lf * 10000)), probe_idx=pi, full=full)
                     elif not self.tr["auto"] and self.obj.elements_added >= self.obj.num_elements - 1:
-                        self.obj.remove(key)
+                        self.do_rem(key)
                         self.emit("rem", [(i, 1)], probe_idx=pi, full=full)
                     else:
-                        self.obj.add(key)
+                        self.do_add(key)
                         self.emit("add", [(i, 1)], probe_idx=pi, full=full)
             except Exception as exc:  # noqa
                 self.tr["raised"] = repr(exc)
@@ -423,11 +464,11 @@ class Rec:
                 a = rnd.choice([1, 1, 1, 2, 5])
                 if kind == "st" and out.get(i, 0) > 0 and rnd.random() < 0.25:
                     a = rnd.randint(1, out[i])
-                    ret = self.obj.remove(keys[i], a)
+                    ret = self.do_rem(keys[i], a)
                     out[i] -= a
                     ev = self.emit("rem", [(i, a)], ret=ret)
                 else:
-                    ret = self.obj.add(keys[i], a)
+                    ret = self.do_add(keys[i], a)
                     out[i] = out.get(i, 0) + a
                     ev = self.emit("add", [(i, a)], ret=ret)
                 if step % 40 == 39 or step == nev - 1:
@@ -557,7 +598,7 @@ class Rec:
 
         key = self.keys[i]
         if r < 0.2:
-            self.obj.remove(key)
+            self.do_rem(key)
             self.emit("rem", [(i, 1)], probe_idx=pi)
         elif r < 0.23:
             self.reload()
@@ -566,7 +607,7 @@ class Rec:
             watch = self.rnd.sample(range(self.nkeys), min(60, self.nkeys))
             before = [bool(self.obj.check(self.keys[j])) for j in watch]
             try:
-                self.obj.add(key)
+                self.do_add(key)
                 self.emit("add", [(i, 1)], probe_idx=pi)
             except CuckooFilterFullError:
                 after = [bool(self.obj.check(self.keys[j])) for j in watch]
@@ -650,7 +691,7 @@ class Rec:
                         rem = rnd.sample(done, len(done) // 3)
                         ok = []
                         for j in rem:
-                            if self.obj.remove(keys[j]):
+                            if self.do_rem(keys[j]):
                                 ok.append((j, 1))
                             if len(ok) >= 400:
                                 self.emit("rem", ok, probe_idx=rnd.sample(done, min(80, len(done))))
@@ -666,12 +707,12 @@ class Rec:
                     a = 1
                     if kind in ("cbloom", "cms"):
                         a = rnd.choice([1, 1, 2, 5]) if rnd.random() < 0.95 else rnd.choice([250, 256, 512, 1024, 32700, 32767, 40000, 65530, 65536, 70000])   # hot keys: counters at / across 2^8, 2^15, 2^16
-                        self.obj.add(keys[j], a)
+                        self.do_add(keys[j], a)
                     elif kind in ("ebf", "rbf"):
                         a = 0
-                        self.obj.add(keys[j])
+                        self.do_add(keys[j])
                     else:
-                        self.obj.add(keys[j])
+                        self.do_add(keys[j])
                     amounts.append((j, a))
                     adds += 1
                 done += batch
@@ -692,7 +733,7 @@ class Rec:
                 if kind in ("cbloom", "cms") and b == 6:
                     rem = sorted(set(rnd.sample(done, min(200, len(done)))))   # each was added with amount >= 1: removing 1 is legitimate
                     for j in rem:
-                        self.obj.remove(keys[j], 1)
+                        self.do_rem(keys[j], 1)
                     self.emit("rem", [(j, 1) for j in rem], probe_idx=rnd.sample(order, 30), full=True)
                 if kind == "qf" and b in (5, 8):
                     self.emit("noop", [], probe_idx=rnd.sample(order, 60), full=True)
@@ -702,7 +743,7 @@ class Rec:
                     parts = [done[i::8] for i in range(6)]
                 for part in parts:
                     for j in part:
-                        self.obj.remove(keys[j])
+                        self.do_rem(keys[j])
                     self.emit("rem", [(j, 1) for j in part], probe_idx=rnd.sample(order, min(300, nkeys)), full=True)
         except Exception as exc:  # noqa
             self.tr["raised"] = repr(exc)
@@ -723,7 +764,7 @@ class Rec:
                 before = [bool(self.obj.check(keys[x])) for x in watch]
             try:
                 cap0 = self.obj.capacity
-                self.obj.add(keys[j])
+                self.do_add(keys[j])
                 ok.append((j, 1))
                 done.append(j)
                 if self.obj.capacity != cap0:   # this add expanded the table: the key that triggered it and its predecessors must be there
